@@ -110,7 +110,9 @@ func (dec *Decoder) decodeListAsInterface(tag byte, p *interface{}) {
 			continue
 		}
 		p := reflect2.PtrOf(result[i])
-		if t.Kind() == reflect.Ptr || t.Kind() == reflect.Map {
+		if st.Elem().LikePtr() {
+			// a pointer, map or single-pointer struct held by value is the
+			// interface word itself, not the address of the value
 			st.UnsafeSetIndex(s, i, (unsafe.Pointer)(&p))
 		} else {
 			st.UnsafeSetIndex(s, i, p)
